@@ -24,7 +24,7 @@ CFG = """INIT Init
 NEXT Next
 CHECK_DEADLOCK FALSE
 CONSTANTS
-  Modes = {"single", "legacy", "indirect", "lists", "norm", "line"}
+  Modes = {"single", "legacy", "indirect", "lists", "norm", "line", "runs"}
   FullEnc = %(full)s
   MaxList = 3
   BigList = %(big)s
